@@ -336,6 +336,19 @@ const ADV_KEYS: &[&str] = &[
     "6b",
 ];
 
+/// hex of the raw root-storage prefix of the contract behind symbol `c<code>_<instance>` (default App, classic address)
+fn raw_prefix_hex(sym: &str) -> Option<String> {
+    let (cc, ii) = sym.strip_prefix('c')?.split_once('_')?;
+    let addr = crate::wasm::classic_addr(&cw_multi_test::App::default(), cc.parse().ok()?, ii.parse().ok()?);
+    let ns = format!("contract_data/{}", addr);
+    let mut p = vec![0u8, 4];
+    p.extend_from_slice(b"wasm");
+    p.push((ns.len() >> 8) as u8);
+    p.push((ns.len() & 0xff) as u8);
+    p.extend_from_slice(ns.as_bytes());
+    Some(crate::util::hex(&p))
+}
+
 pub fn gen_iso(rng: &mut Rng, thorough: bool) -> Vec<String> {
     let mut ops = vec![];
     let mut ctx = new_ctx(rng);
@@ -348,8 +361,15 @@ pub fn gen_iso(rng: &mut Rng, thorough: bool) -> Vec<String> {
         let k = rng.range(1, 4);
         let mut acts = vec![];
         for _ in 0..k {
-            let key = if rng.chance(1, 5) {
-                // the other contract's full raw prefix cannot be spelled without its address; use long junk keys too
+            let key = if rng.chance(1, 6) {
+                // a key that starts with the full raw prefix of the writing contract itself or of another contract
+                // (addresses are deterministic, so the prefix can be spelled): it is an ordinary key
+                let target = if rng.chance(2, 3) { c.clone() } else { rng.pick(&contracts) };
+                match raw_prefix_hex(&target) {
+                    Some(p) => if rng.chance(1, 4) { p } else { format!("{}+{}", p, rng.pick(&["6b", "00", "ff", "6b01"])) },
+                    None => rng.pick(ADV_KEYS).to_string(),
+                }
+            } else if rng.chance(1, 5) {
                 format!("{}+{}", rng.pick(ADV_KEYS), rng.pick(ADV_KEYS))
             } else {
                 rng.pick(ADV_KEYS).to_string()
@@ -359,7 +379,7 @@ pub fn gen_iso(rng: &mut Rng, thorough: bool) -> Vec<String> {
                 0 => acts.push(format!("(rm {})", key)),
                 1 => acts.push(format!(
                     "({} {} ~ {})",
-                    if rng.chance(1, 2) { "rngk" } else { "rng" },
+                    rng.pick(&["rngk", "rng", "rng", "rngv"]),
                     if rng.chance(1, 2) { "~".to_string() } else { key },
                     if rng.chance(1, 2) { "asc" } else { "desc" }
                 )),
@@ -492,7 +512,7 @@ pub fn gen_legacy(rng: &mut Rng, thorough: bool) -> Vec<String> {
             let key = rng.pick(&keys);
             match rng.below(6) {
                 0 => acts.push(format!("(rm {})", key)),
-                1 => acts.push(format!("({} ~ ~ {})", if rng.chance(1, 2) { "rngk" } else { "rng" }, if rng.chance(1, 2) { "asc" } else { "desc" })),
+                1 => acts.push(format!("({} ~ ~ {})", rng.pick(&["rngk", "rng", "rngv"]), if rng.chance(1, 2) { "asc" } else { "desc" })),
                 2 => acts.push(format!("(rd {})", key)),
                 _ => acts.push(format!("(w {} {:02x})", key, rng.range(1, 200))),
             }
